@@ -165,6 +165,9 @@ func (s *MemoryStore) Enqueue(env Envelope) error {
 	now := s.nowFn()
 	s.maybePruneLocked(now)
 
+	// Select drop_oldest victims first and evict them only once the new item is
+	// known to be stored, so a refused enqueue leaves the queue untouched.
+	var victims []string
 	if s.maxDepth > 0 {
 		activeCount := s.activeCountLocked()
 		activeDeliveredCount := s.activeDeliveredCountLocked()
@@ -172,11 +175,13 @@ func (s *MemoryStore) Enqueue(env Envelope) error {
 			if s.dropPolicy != "drop_oldest" {
 				return ErrQueueFull
 			}
-			if !s.dropOldestQueuedLocked() {
+			id, ok := s.oldestQueuedLocked(victims)
+			if !ok {
 				return ErrQueueFull
 			}
-			activeCount = s.activeCountLocked()
-			activeDeliveredCount = s.activeDeliveredCountLocked()
+			victims = append(victims, id)
+			activeCount--
+			activeDeliveredCount--
 		}
 	}
 
@@ -188,8 +193,11 @@ func (s *MemoryStore) Enqueue(env Envelope) error {
 	if env.ID == "" {
 		env.ID = newHexID("evt_")
 	}
-	if _, exists := s.items[env.ID]; exists {
+	if _, exists := s.items[env.ID]; exists && !containsID(victims, env.ID) {
 		return ErrEnvelopeExists
+	}
+	for _, id := range victims {
+		s.evictLocked(id, memoryEvictionReasonDropOldest)
 	}
 	if env.State == "" {
 		env.State = StateQueued
@@ -252,6 +260,21 @@ func (s *MemoryStore) EnqueueBatch(items []Envelope) (int, error) {
 		}
 	}
 
+	// Select drop_oldest victims first and evict them only once the whole batch is
+	// known to be stored, so a refused batch leaves the queue untouched.
+	var victims []string
+	if s.maxDepth > 0 {
+		for activeCount+needed > s.maxDepth || (s.deliveredRetentionMaxAge > 0 && activeDeliveredCount+needed > s.maxDepth) {
+			id, ok := s.oldestQueuedLocked(victims)
+			if !ok {
+				return 0, ErrQueueFull
+			}
+			victims = append(victims, id)
+			activeCount--
+			activeDeliveredCount--
+		}
+	}
+
 	prepared := make([]*Envelope, 0, needed)
 	seenIDs := make(map[string]struct{}, needed)
 	for i := range items {
@@ -263,7 +286,7 @@ func (s *MemoryStore) EnqueueBatch(items []Envelope) (int, error) {
 			return 0, ErrEnvelopeExists
 		}
 		seenIDs[env.ID] = struct{}{}
-		if _, exists := s.items[env.ID]; exists {
+		if _, exists := s.items[env.ID]; exists && !containsID(victims, env.ID) {
 			return 0, ErrEnvelopeExists
 		}
 		if env.State == "" {
@@ -291,23 +314,15 @@ func (s *MemoryStore) EnqueueBatch(items []Envelope) (int, error) {
 		prepared = append(prepared, &cpy)
 	}
 
-	// Handle depth overflow with drop_oldest.
-	if s.maxDepth > 0 {
-		for activeCount+len(prepared) > s.maxDepth || (s.deliveredRetentionMaxAge > 0 && activeDeliveredCount+len(prepared) > s.maxDepth) {
-			if !s.dropOldestQueuedLocked() {
-				return 0, ErrQueueFull
-			}
-			activeCount = s.activeCountLocked()
-			activeDeliveredCount = s.activeDeliveredCountLocked()
-		}
-	}
-
 	if pressure := s.memoryPressureStatusLocked(); pressure.Active {
 		s.memoryPressureRejects++
 		return 0, ErrMemoryPressure
 	}
 
-	// Commit all items.
+	// Commit: evict the selected victims, then store all items.
+	for _, id := range victims {
+		s.evictLocked(id, memoryEvictionReasonDropOldest)
+	}
 	for _, env := range prepared {
 		s.items[env.ID] = env
 		s.order = append(s.order, env.ID)
@@ -459,7 +474,8 @@ func envelopeRetainedBytes(env *Envelope) int64 {
 	return size
 }
 
-func (s *MemoryStore) dropOldestQueuedLocked() bool {
+// oldestQueuedLocked returns the oldest queued item that is not already in skip.
+func (s *MemoryStore) oldestQueuedLocked(skip []string) (string, bool) {
 	for _, id := range s.order {
 		env := s.items[id]
 		if env == nil {
@@ -468,7 +484,19 @@ func (s *MemoryStore) dropOldestQueuedLocked() bool {
 		if env.State != StateQueued {
 			continue
 		}
-		return s.evictLocked(id, memoryEvictionReasonDropOldest)
+		if containsID(skip, id) {
+			continue
+		}
+		return id, true
+	}
+	return "", false
+}
+
+func containsID(ids []string, id string) bool {
+	for _, v := range ids {
+		if v == id {
+			return true
+		}
 	}
 	return false
 }
